@@ -38,6 +38,8 @@ var roots = []string{
 	"poseidon.HashEx",
 	"babyjub.PointProjective.Add",
 	"babyjub.NewPoint",
+	"babyjub.Point.Mul", // the returned value (call sites use BabyJub.Mul: table of externals)
+	"babyjub.Point.Set",
 	"babyjub.PointCoordSign",
 	"babyjub.PackSignY",
 	"babyjub.UnpackSignY",
@@ -127,6 +129,10 @@ func main() {
 			i++
 		}
 		g.summaryOf(r[:i], r[i+1:], nil)
+	}
+	// final value of the receiver of the documented destinations
+	for _, k := range []string{"babyjub.Point.Mul", "babyjub.Point.Set", "babyjub.Point.Decompress", "babyjub.Signature.Decompress"} {
+		g.recvDefs("babyjub", k[len("babyjub."):])
 	}
 	writeIfChanged(filepath.Join(verif, "coq", "Gen", "BigIntRoutines.v"), []byte(g.emitFile()))
 	if g.nfail > 0 {
